@@ -9,6 +9,7 @@ import (
 	"go/token"
 	"go/types"
 	"math/big"
+	"os"
 	"strings"
 
 	"golang.org/x/tools/go/ssa"
@@ -18,6 +19,7 @@ import (
 
 type loopCtx struct {
 	header  *State
+	entry   *State
 	variant *Term
 }
 
@@ -51,9 +53,13 @@ func (u *Unit) enterLoop(fr *Frame, li *loopInfo, st *State) *State {
 	for _, h := range u.loopClauses(fr, li, "hint") {
 		u.applyHint(fr, st, h, li)
 	}
+	u.loopCtxs[li] = &loopCtx{entry: st.clone()}
 	for _, inv := range invs {
 		g := u.evalClause(fr, st, inv, li)
 		u.oblige("inv-init", fmt.Sprintf("L%d-%s", li.ordinal, labelOr(inv, invs)), st, g, token.NoPos, inv.text)
+	}
+	if g := u.autoRangeInv(fr, li, st); g != nil {
+		u.oblige("inv-init", fmt.Sprintf("L%d-rangeindex", li.ordinal), st, g, token.NoPos, "-1 <= hidden range index < len (engine-generated)")
 	}
 	// havoc
 	h := st.clone()
@@ -94,8 +100,11 @@ func (u *Unit) enterLoop(fr *Frame, li *loopInfo, st *State) *State {
 	for _, inv := range invs {
 		u.assume(h.guard, u.evalClause(fr, h, inv, li))
 	}
+	if g := u.autoRangeInv(fr, li, h); g != nil {
+		u.assume(h.guard, g)
+	}
 	u.probe(fmt.Sprintf("L%d", li.ordinal), h)
-	lc := &loopCtx{header: h.clone()}
+	lc := &loopCtx{header: h.clone(), entry: st.clone()}
 	if ds := u.loopClauses(fr, li, "decreases"); len(ds) > 0 {
 		lc.variant = u.evalClauseTerm(fr, h, ds[0], li)
 	}
@@ -129,6 +138,9 @@ func (u *Unit) closeLoop(fr *Frame, li *loopInfo, st *State, from *ssa.BasicBloc
 	for _, inv := range invs {
 		g := u.evalClause(fr, st, inv, li)
 		u.oblige("inv-preserve", fmt.Sprintf("L%d-%s", li.ordinal, labelOr(inv, invs)), st, g, token.NoPos, inv.text)
+	}
+	if g := u.autoRangeInv(fr, li, st); g != nil {
+		u.oblige("inv-preserve", fmt.Sprintf("L%d-rangeindex", li.ordinal), st, g, token.NoPos, "-1 <= hidden range index < len (engine-generated)")
 	}
 	if lc.variant != nil {
 		ds := u.loopClauses(fr, li, "decreases")
@@ -700,6 +712,9 @@ func (u *Unit) callMods(fr *Frame, li *loopInfo, c *ssa.CallCommon, depth int, s
 			markAllocArgs()
 			return
 		}
+		if os.Getenv("GOVC_DEBUG") != "" {
+			fmt.Fprintf(os.Stderr, "modAll: loop %d of %s calls uncontracted %s\n", li.ordinal, fr.fn.Name(), name)
+		}
 		li.modAll = true
 		markAllocArgs()
 		return
@@ -730,7 +745,18 @@ func (u *Unit) callMods(fr *Frame, li *loopInfo, c *ssa.CallCommon, depth int, s
 			}
 		}
 	}
+	for _, af := range fr.fn.AnonFuncs {
+		if len(af.FreeVars) == 0 && types.Identical(af.Signature, c.Signature()) {
+			found = true
+			if depth < 6 {
+				scan(af, af.Blocks, depth+1)
+			}
+		}
+	}
 	if !found {
+		if os.Getenv("GOVC_DEBUG") != "" {
+			fmt.Fprintf(os.Stderr, "modAll: loop %d of %s calls through unknown function value %s (%T)\n", li.ordinal, fr.fn.Name(), c.Value, c.Value)
+		}
 		li.modAll = true
 	}
 	markAllocArgs()
@@ -803,4 +829,45 @@ func (u *Unit) mathWrap64(x *Term) *Term {
 		panic(u.errf("mathWrap64 is only available in theory int"))
 	}
 	return u.m.tb.App("mod", SInt, x, u.m.tb.IntBig(pow2(64)))
+}
+
+// autoRangeInv: for `for i, x := range slice` loops go/ssa keeps a hidden index
+// cell that cannot be named in a contract; its invariant -1 <= idx < len is
+// generated (and checked like any other invariant).
+func (u *Unit) autoRangeInv(fr *Frame, li *loopInfo, st *State) *Term {
+	ins := li.header.Instrs
+	if len(ins) < 4 {
+		return nil
+	}
+	ld, ok := ins[0].(*ssa.UnOp)
+	if !ok || ld.Op != token.MUL {
+		return nil
+	}
+	al, ok := ld.X.(*ssa.Alloc)
+	if !ok || al.Comment != "rangeindex" {
+		return nil
+	}
+	var cmp *ssa.BinOp
+	for _, in := range ins {
+		if b, ok := in.(*ssa.BinOp); ok && b.Op == token.LSS {
+			cmp = b
+		}
+	}
+	if cmp == nil {
+		return nil
+	}
+	lenV, ok := fr.vals[cmp.Y]
+	if !ok {
+		if c, isConst := cmp.Y.(*ssa.Const); isConst {
+			lenV = u.constVal(c)
+		} else {
+			return nil
+		}
+	}
+	idx, ok := st.cells[al].(*Term)
+	if !ok {
+		return nil
+	}
+	m := u.m
+	return m.tb.And(m.IxLe(m.IxConst(-1), idx), m.IxLt(idx, m.tb.Ite(m.IxLt(lenV.(*Term), m.IxConst(0)), m.IxConst(0), lenV.(*Term))))
 }
